@@ -118,6 +118,12 @@ func (s *Service) Start(ctx context.Context) error {
 	}
 
 	verifAt(ctx, "srv.Service.Start.swapped", s)
+	if s.isFinished.Load() {
+		// the service finished between the first check and the
+		// swap: it must not be reported as running again.
+		s.isRunning.Store(false)
+		return ErrServiceReturned
+	}
 
 	verifAt(ctx, "srv.Service.Start.claimed", s)
 	s.doStart.Do(func() {
